@@ -15,17 +15,15 @@ theorem scanArch_snoc (arch : List (Nat × Nat)) (p : Nat × Nat) (i : Nat) :
 structure SegInv (m : List Entry) (s : Segs) : Prop where
   /-- every entry at or above `last_term_start` carries `last_term` -/
   top : ∀ e ∈ m, s.lastStart ≤ e.index → e.term = s.lastTerm
-  /-- below it, the reverse scan of the archived segments finds the entry's term -/
-  low : ∀ e ∈ m, e.index < s.lastStart → scanArch s.arch e.index = some e.term
-  /-- `seg_count` is the number of archived slots (no slot has been dropped) -/
-  cnt : s.count = s.arch.length
+  /-- below it, the reverse scan of the archived segments finds the entry's term — as long as no segment was dropped -/
+  low : s.count ≤ maxSegs → ∀ e ∈ m, e.index < s.lastStart → scanArch s.arch e.index = some e.term
+  /-- `seg_count` is the number of archived slots as long as no slot has been dropped -/
+  cnt : s.count ≤ maxSegs → s.count = s.arch.length
 
-theorem SegInv.empty : SegInv [] ({} : Segs) := ⟨by simp, by simp, rfl⟩
-
-theorem SegInv.nil (s : Segs) (h : s.count = s.arch.length) : SegInv [] s := ⟨by simp, by simp, h⟩
+theorem SegInv.empty : SegInv [] ({} : Segs) := ⟨by simp, by simp, fun _ => rfl⟩
 
 theorem SegInv.sub {m m' : List Entry} {s : Segs} (h : SegInv m s) (hs : ∀ e ∈ m', e ∈ m) : SegInv m' s :=
-  ⟨fun e he => h.top e (hs e he), fun e he => h.low e (hs e he), h.cnt⟩
+  ⟨fun e he => h.top e (hs e he), fun hc e he => h.low hc e (hs e he), h.cnt⟩
 
 /-- `TermSegments::get` is right or silent for every entry of the log -/
 theorem SegInv.get {m : List Entry} {s : Segs} (h : SegInv m s) {e : Entry} (he : e ∈ m) :
@@ -35,18 +33,12 @@ theorem SegInv.get {m : List Entry} {s : Segs} (h : SegInv m s) {e : Entry} (he 
   · right; simp [h0]
   · by_cases h1 : s.lastStart ≤ e.index
     · left; simp [h0, h1, h.top e he h1]
-    · left; simp [h0, h1, h.low e he (by omega)]
-
-theorem Segs.push_arch_length (s : Segs) (e : Entry) : (s.push e).arch.length ≤ s.arch.length + 1 := by
-  unfold Segs.push
-  split
-  · split <;> simp
-  · split
-    · simp
-    · simp only; split <;> simp
+    · by_cases h2 : maxSegs < s.count
+      · right; simp [h0, h1, h2]
+      · left; simp [h0, h1, h2, h.low (by omega) e he (by omega)]
 
 theorem SegInv.push {m : List Entry} {s : Segs} (h : SegInv m s) {e : Entry}
-    (hpos : ∀ x ∈ m, 0 < x.term) (habove : ∀ x ∈ m, x.index < e.index) (hb : s.arch.length < maxSegs) :
+    (hpos : ∀ x ∈ m, 0 < x.term) (habove : ∀ x ∈ m, x.index < e.index) :
     SegInv (m ++ [e]) (s.push e) := by
   unfold Segs.push
   by_cases ht : e.term = s.lastTerm
@@ -58,10 +50,10 @@ theorem SegInv.push {m : List Entry} {s : Segs} (h : SegInv m s) {e : Entry}
         rcases List.mem_append.mp hx with hx | hx
         · have := habove x hx; simp only at hle; omega
         · simp at hx; subst hx; exact ht
-      · intro x hx hlt'
+      · intro hc x hx hlt'
         simp only at hlt'
         rcases List.mem_append.mp hx with hx | hx
-        · exact h.low x hx (by omega)
+        · exact h.low hc x hx (by omega)
         · simp at hx; subst hx; omega
     · simp only [hlt, if_false]
       refine ⟨?_, ?_, h.cnt⟩
@@ -69,9 +61,9 @@ theorem SegInv.push {m : List Entry} {s : Segs} (h : SegInv m s) {e : Entry}
         rcases List.mem_append.mp hx with hx | hx
         · exact h.top x hx hle
         · simp at hx; subst hx; exact ht
-      · intro x hx hlt'
+      · intro hc x hx hlt'
         rcases List.mem_append.mp hx with hx | hx
-        · exact h.low x hx hlt'
+        · exact h.low hc x hx hlt'
         · simp at hx; subst hx; omega
   · simp only [ht, if_false]
     by_cases h0 : s.lastTerm = 0
@@ -82,45 +74,49 @@ theorem SegInv.push {m : List Entry} {s : Segs} (h : SegInv m s) {e : Entry}
         rcases List.mem_append.mp hx with hx | hx
         · have := habove x hx; omega
         · simp at hx; subst hx; rfl
-      · intro x hx hlt'
-        simp only at hlt' ⊢
+      · intro hc x hx hlt'
+        simp only at hlt' hc ⊢
         rcases List.mem_append.mp hx with hx | hx
         · by_cases hxs : s.lastStart ≤ x.index
           · have := h.top x hx hxs
             have := hpos x hx
             omega
-          · exact h.low x hx (by omega)
+          · exact h.low hc x hx (by omega)
         · simp at hx; subst hx; omega
     · simp only [h0, if_false]
-      have hc : s.count < maxSegs := by rw [h.cnt]; exact hb
-      simp only [hc, if_true]
-      refine ⟨?_, ?_, by simp [h.cnt]⟩
+      refine ⟨?_, ?_, ?_⟩
       · intro x hx hle
         simp only at hle ⊢
         rcases List.mem_append.mp hx with hx | hx
         · have := habove x hx; omega
         · simp at hx; subst hx; rfl
-      · intro x hx hlt'
-        simp only at hlt' ⊢
+      · intro hc x hx hlt'
+        simp only at hlt' hc ⊢
+        have hc' : s.count < maxSegs := by omega
+        simp only [hc', if_true]
         rcases List.mem_append.mp hx with hx | hx
         · rw [scanArch_snoc]
           by_cases hxs : s.lastStart ≤ x.index
           · simp only [hxs, if_true]; rw [h.top x hx hxs]
-          · simp only [hxs, if_false]; exact h.low x hx (by omega)
+          · simp only [hxs, if_false]; exact h.low (by omega) x hx (by omega)
         · simp at hx; subst hx; omega
+      · intro hc
+        simp only at hc ⊢
+        have hc' : s.count < maxSegs := by omega
+        have hcnt := h.cnt (by omega)
+        rw [if_pos hc']
+        simp [hcnt]
 
 theorem SegInv.onAppend {m : List Entry} {s : Segs} {k : Nat} {es : List Entry} (h : SegInv m s)
     (hpos : ∀ x ∈ m, 0 < x.term) (habove : ∀ x ∈ m, x.index < k) (hc : contigFrom k es = true)
-    (hpes : termsPos es = true) (hb : s.arch.length + es.length ≤ maxSegs) :
-    SegInv (m ++ es) (s.onAppend es) ∧ (s.onAppend es).arch.length ≤ s.arch.length + es.length := by
+    (hpes : termsPos es = true) :
+    SegInv (m ++ es) (s.onAppend es) := by
   induction es generalizing m s k with
   | nil => simpa [Segs.onAppend] using h
   | cons e es ih =>
     simp only [contigFrom_cons, Bool.and_eq_true, beq_iff_eq] at hc
     simp only [termsPos, List.all_cons, Bool.and_eq_true, decide_eq_true_eq] at hpes
-    simp only [List.length_cons] at hb
-    have h1 := h.push (e := e) hpos (fun x hx => by have := habove x hx; omega) (by omega)
-    have hl := Segs.push_arch_length s e
+    have h1 := h.push (e := e) hpos (fun x hx => by have := habove x hx; omega)
     have := ih (m := m ++ [e]) (s := s.push e) (k := k + 1) h1
       (by intro x hx
           rcases List.mem_append.mp hx with hx | hx
@@ -130,8 +126,8 @@ theorem SegInv.onAppend {m : List Entry} {s : Segs} {k : Nat} {es : List Entry} 
           rcases List.mem_append.mp hx with hx | hx
           · have := habove x hx; omega
           · simp at hx; subst hx; omega)
-      hc.2 (by simpa [termsPos] using hpes.2) (by omega)
-    simp only [Segs.onAppend, List.length_cons]
-    refine ⟨by simpa using this.1, by omega⟩
+      hc.2 (by simpa [termsPos] using hpes.2)
+    simp only [Segs.onAppend]
+    simpa using this
 
 end DEngine.BufLog
